@@ -91,7 +91,9 @@ fn frame_bytes(idx: usize, f: &RFrame, kind: &str) -> Vec<u8> {
     let s = if f.call == 0 {
         format!("{{\"parameters\":{{\"s\":\"later{pad}\",\"i\":{idx}}}}}")
     } else if f.gen {
-        match (idx + f.pad) % 4 {
+        match (idx + f.pad) % 5 {
+            // (a frame of nothing but whitespace: no document, reported with the end-of-stream variant)
+            4 => [" ", "\n", "\t \r\n"][idx % 3].to_string(),
             0 => format!("{{\"error\":\"org.varlink.service.InvalidParameter\",\"parameters\":{{\"parameter\":\"p{pad}\"}}}}"),
             1 => format!("{{\"parameters\":{{\"s\":{idx},\"i\":\"{pad}\"}}}}"),
             2 => format!("{{\"error\":\"x.y.Undeclared\",\"parameters\":{{\"why\":\"{pad}\"}}}}"),
@@ -396,7 +398,8 @@ pub fn run(sc: &Scenario, stats: &mut Stats) {
                 let (_p, b, r, m) = conn.read().verif_state();
                 (b, r, m)
             };
-            let eof = o.cls == "eof";
+            // the end of the stream, not the error result of a blank frame (same error variant)
+            let eof = o.cls == "eof" && wire.borrow().eof_reported;
             ev(json!({"ev":"recv","cls":o.cls,"canon":o.canon,"blen":blen}));
             if eof {
                 break;
